@@ -4,9 +4,9 @@ package interp
 // native implementation (bodies) used for replay; here the calls are intercepted by name.
 
 import (
-	"go/token"
 	"encoding/hex"
 	"fmt"
+	"go/token"
 	"go/types"
 	"path/filepath"
 	"strconv"
